@@ -29,7 +29,9 @@ Oracle (written from the statement):
                    accepted, never when refused.
   registry         at every quiet instant at which all test modes are stopped, the canonical snapshot of the registries
                    equals the snapshot taken before the first start (see _c07_helpers.snapshot).
-  fired_inactive   a handler/delay/switch handler registered by the custom mode code runs while the mode is not active.
+  fired_inactive   a handler/delay/switch handler registered by the custom mode code runs while the mode is not active
+                   (relaxation R5: not judged in the very instant in which mode_<m>_stopped is posted - the stop completes
+                   when that event has been dispatched).
   mpf_crash        an exception reaches the loop's exception handler.
 """
 import re
@@ -114,8 +116,8 @@ def _gen_hook(ch, focus):
             act["hold"] = ch.pick("hook.hold_d", HOLDS)
         if ch.flag("hook.req", 0.6):
             act["req"] = _gen_request(ch.sub("hook"), focus, same=mode)
-        if ch.flag("hook.trig", 0.15):
-            act["post"] = ch.pick("hook.trig_e", ALL_TRIGGERS)
+        if ch.flag("hook.trig", 0.3):
+            act["post"] = ch.pick("hook.trig_e", TRIGGERS.get(mode) or ALL_TRIGGERS)
         script.append(act)
     return {"mode": mode, "phase": phase, "prio": prio, "script": script}
 
@@ -137,7 +139,10 @@ def _gen_op(ch, focus, allow_burst=True):
         op["switch"] = ch.pick("sw", SWITCHES)
         op["state"] = ch.choice("sw_state", 2)
     elif kind == "burst":
-        op["ops"] = [_gen_op(ch.sub("burst"), focus, allow_burst=False) for _ in range(2 + ch.choice("burst_n", 3))]
+        # several things in one instant; half of the bursts stay with one mode (request + its own triggers)
+        one = ch.pick("burst_mode", focus) if ch.flag("burst_one", 0.5) else None
+        sub_focus = [one] if one else focus
+        op["ops"] = [_gen_op(ch.sub("burst"), sub_focus, allow_burst=False) for _ in range(2 + ch.choice("burst_n", 3))]
         op["ops"] = [o for o in op["ops"] if o["op"] not in ("checkpoint",)]
     return op
 
@@ -263,6 +268,7 @@ def execute(ctx, plan):
     abort = [False]
     in_request = [0]
     last_life = [0.0]
+    stopped_at = {n: [] for n in TEST_MODES}
 
     def now():
         return loop.time()
@@ -309,6 +315,7 @@ def execute(ctx, plan):
         s["count"][phase] += 1
         if phase == "stopped":
             s["cycles"] += 1
+            stopped_at[n].append(now())
         if phase == "will_stop" and n == "dev" and not in_request[0]:
             ctx.probe("stop_by_own_device")
 
@@ -515,13 +522,15 @@ def execute(ctx, plan):
     def judge_coded():
         calls, fired = coded.calls, coded.fired
         while coded_seen[1] < len(fired):
-            what, active, stopping = fired[coded_seen[1]]
+            what, active, stopping, t = fired[coded_seen[1]]
             coded_seen[1] += 1
-            ctx.log("coded_fired", what, active, stopping)
-            if not active:
+            ctx.log("coded_fired", what, active, stopping, t=t)
+            # R5: a stop is complete when mode_<m>_stopped has been dispatched, which happens in the instant in
+            # which it is posted; until then the mode's handlers may still run
+            if not active and not any(abs(t - ts) < 1e-9 for ts in stopped_at["coded"]):
                 ctx.violation("fired_inactive", "coded.%s while mode not active" % what,
-                              "%s registered by the custom code of mode coded ran while coded.active was False "
-                              "(log position %d)" % (what, coded_seen[1] - 1))
+                              "%s registered by the custom code of mode coded ran at t=%.6f while coded.active was False "
+                              "(mode_coded_stopped posted at %r)" % (what, t, stopped_at["coded"][-3:]))
         while coded_seen[0] < len(calls):
             what, active = calls[coded_seen[0]]
             coded_seen[0] += 1
@@ -684,14 +693,16 @@ def execute(ctx, plan):
         rounds = 0
         while any(settled(n) == "active" for n in TEST_MODES):
             rounds += 1
-            if rounds > 6 + sum(len(h["script"]) for h in plan["hooks"]):
+            if rounds > len(TEST_MODES) * (3 + sum(len(h["script"]) for h in plan["hooks"])):
                 ctx.violation("liveness", "modes cannot be stopped", "modes still active after %d rounds of stop(): %r"
                               % (rounds, [n for n in TEST_MODES if settled(n) == "active"]))
                 abort[0] = True
                 return
             for n in TEST_MODES:
+                # one at a time: the request is only judged (must be accepted) when the bus is quiet
                 if settled(n) == "active" and quiet_bus():
                     request({"kind": "stop", "mode": n, "via": "direct"}, "op")
+                    break
             if not settle("checkpoint stop"):
                 return
         if quiet_bus() and not holds:
